@@ -3,7 +3,7 @@ C04 — locks: one holder, only live sessions, released whenever the session end
 Property theorems only; the model is CV.Store.* and the helper lemmas live in CV/Proofs/StoreLock.lean.
 (`LockInv` is defined in CV/Proofs/StoreLock.lean next to its preservation lemmas.)
 -/
-import CV.Proofs.StoreLock
+import CV.Proofs.StoreSorted
 namespace CV.Store
 open CV
 
@@ -111,5 +111,83 @@ theorem session_end_same_step (s : State) (idx : Nat) (c : Cmd) (h : LockInv s) 
     by_cases hs : q.session = ""
     · exact Or.inl hs
     · exact Or.inr (fun hc => hnl _ hc (h'.2.2 q hq hs))
+
+/-- Commands outside the KV verbs (session create / destroy, register, deregister, reap, prepared
+    queries) reach the KV table ONLY by releasing or deleting rows: every row afterwards is a row from
+    before — identical, or with `session` cleared and `modify` set to the command's index. In particular
+    no key appears, no value / flags / lock counter / create index changes, and a released key keeps
+    its lock counter. -/
+theorem nonkv_only_releases_or_deletes (s : State) (idx : Nat) (c : Cmd) (hc : c.isPlainNonKv = true) :
+    ∀ e' ∈ (apply s idx c).1.kvs, ∃ e ∈ s.kvs, RowFrom idx e e' :=
+  kc_apply (kvRel_closed idx s) c hc (kvRel_refl idx s)
+
+/-- A row that nobody holds is never touched by those commands. -/
+theorem unlocked_rows_survive (s : State) (idx : Nat) (c : Cmd) (hc : c.isPlainNonKv = true)
+    (r : KV) (hr : r ∈ s.kvs) (hs : r.session = "") : r ∈ (apply s idx c).1.kvs :=
+  kc_apply (survive_closed idx r hs) c hc hr
+
+/-- Session destroy, behaviour `delete`: in the state right after the destroy every remaining row
+    descends from a row that the session did NOT hold (so, keys being unique, every key it held is
+    gone) — including everything the cascade through session-typed checks removes on top. -/
+theorem destroy_deletes_held_keys (s : State) (idx : Nat) (id : String) (sess : Sess)
+    (hf : sessFind s id = some sess) (hb : sess.behavior = .delete)
+    (hok : (apply s idx (.sessionDestroy id)).2 = .ok) :
+    ∀ e' ∈ (apply s idx (.sessionDestroy id)).1.kvs, ∃ e ∈ s.kvs, heldBy id e = false ∧ RowFrom idx e e' :=
+  destroy_delete_rows hf hb hok
+
+/-- Session destroy, behaviour `release`: every key the session held is still there, unlocked, with
+    the same value, flags, lock counter and create index, stamped with the destroy's index. -/
+theorem destroy_releases_held_keys (s : State) (idx : Nat) (id : String) (sess : Sess)
+    (hf : sessFind s id = some sess) (hb : sess.behavior = .release)
+    (hok : (apply s idx (.sessionDestroy id)).2 = .ok) (e : KV) (he : e ∈ s.kvs) (hh : heldBy id e = true) :
+    { e with session := "", modify := idx } ∈ (apply s idx (.sessionDestroy id)).1.kvs :=
+  destroy_release_rows hf hb hok e he hh
+
+/-- One row — hence one holder — per key, in every reachable state: the KV table is strictly sorted
+    by key after every history. -/
+theorem one_row_per_key (log : Log) (a b : KV) (ha : a ∈ (replay State.empty log).kvs)
+    (hb : b ∈ (replay State.empty log).kvs) (hk : a.key = b.key) : a = b :=
+  kvSorted_unique (kvSorted_replay _ log kvSorted_empty) ha hb hk
+
+/-- … so with behaviour `delete` every key the destroyed session held is absent afterwards. -/
+theorem destroy_deleted_keys_absent (s : State) (hs : KvSorted s) (idx : Nat) (id : String) (sess : Sess)
+    (hf : sessFind s id = some sess) (hb : sess.behavior = .delete)
+    (hok : (apply s idx (.sessionDestroy id)).2 = .ok) (e : KV) (he : e ∈ s.kvs) (hh : heldBy id e = true) :
+    ∀ e' ∈ (apply s idx (.sessionDestroy id)).1.kvs, e'.key ≠ e.key := by
+  intro e' he' hk
+  obtain ⟨e0, he0, hn, hfrom⟩ := destroy_delete_rows hf hb hok e' he'
+  have hk0 : e0.key = e.key := by
+    rcases hfrom with rfl | ⟨-, rfl⟩
+    · exact hk
+    · exact hk
+  have := kvSorted_unique hs he0 he hk0
+  rw [this, hh] at hn
+  cases hn
+
+/-! ### non-vacuity -/
+
+/-- node, session bound to a check, a locked key, a session-scoped prepared query -/
+def demoLog : Log :=
+  [(1, .register ⟨⟨"n1", "", "10.0.0.1", 0, 0⟩, none, [⟨"n1", "c1", "passing", "", "", "", "", "", 0, 0⟩]⟩),
+   (2, .sessionCreate ⟨"aaaaaaaa-0000-0000-0000-000000000001", "n1", "", "delete", ["c1"], 0⟩),
+   (3, .kvLock ⟨[107], "=v", 0, "aaaaaaaa-0000-0000-0000-000000000001", 0, 0, 0⟩),
+   (4, .pqSet "cccccccc-0000-0000-0000-000000000001" "aaaaaaaa-0000-0000-0000-000000000001")]
+
+/- The invariant is not vacuous. The two facts below are TESTS (`#guard`, evaluated by the compiler
+   when this file is built; string comparisons do not reduce in the kernel), not theorems:
+   there are reachable states with a held lock, a check link and a session-bound query … -/
+#guard (replay State.empty demoLog).kvs.map (·.session) == ["aaaaaaaa-0000-0000-0000-000000000001"] &&
+    (replay State.empty demoLog).sessChecks.length == 1 && (replay State.empty demoLog).queries.length == 1
+
+/- … and the critical status of the bound check ends the session and (behaviour delete) removes the
+   key, the link and the query in that same command. -/
+#guard
+    let s' := (apply (replay State.empty demoLog) 5
+      (.register ⟨⟨"n1", "", "10.0.0.1", 0, 0⟩, none, [⟨"n1", "c1", "critical", "", "", "", "", "", 0, 0⟩]⟩)).1
+    s'.sessions.isEmpty && s'.kvs.isEmpty && s'.sessChecks.isEmpty && s'.queries.isEmpty
+
+/- hypotheses of the destroy theorems are satisfiable: the session exists and the destroy succeeds (test) -/
+#guard (sessFind (replay State.empty demoLog) "aaaaaaaa-0000-0000-0000-000000000001").isSome &&
+    (apply (replay State.empty demoLog) 5 (.sessionDestroy "aaaaaaaa-0000-0000-0000-000000000001")).2 == .ok
 
 end CV.Store
